@@ -245,7 +245,8 @@ func (this *Hnsw) Search(ctx context.Context, query math.Vector, k uint) (Search
 		entrypoint, minDistance = this.greedyClosestNeighbor(query, entrypoint, minDistance, l)
 	}
 
-	ef := math.MaxInt(this.config.ef, int(k))
+	// A beam wider than the index holds nothing more (and sizes the visited set)
+	ef := math.MaxInt(this.config.ef, math.MinInt(int(k), int(this.Len())))
 	neighbors := this.searchLevel(query, entrypoint, ef, 0)
 
 	switch this.config.searchAlgorithm {
